@@ -25,6 +25,10 @@ type varStore struct {
 
 	predefVarRef map[*runtime.Function]map[*reflect.Value]int16
 
+	// predefVarGlobal maps a predefined variable to its index in globals, so
+	// that a variable referenced by more than one function has one global.
+	predefVarGlobal map[*reflect.Value]int16
+
 	// Holds all Scriggo-defined and pre-predefined global variables.
 	globals []Global
 
@@ -38,6 +42,7 @@ func newVarStore(emitter *emitter, indirectVars map[*ast.Identifier]bool) *varSt
 	return &varStore{
 		emitter:               emitter,
 		predefVarRef:          map[*runtime.Function]map[*reflect.Value]int16{},
+		predefVarGlobal:       map[*reflect.Value]int16{},
 		indirectVars:          indirectVars,
 		scriggoPackageVarRefs: map[*ast.Package]map[string]int16{},
 		closureVars:           map[*runtime.Function]map[string]int16{},
@@ -100,14 +105,18 @@ func (vs *varStore) predefVarIndex(v *reflect.Value, typ reflect.Type, pkg, name
 	if index, ok := vs.predefVarRef[currFn][v]; ok {
 		return index
 	}
-	g := newGlobal(pkg, name, typ, reflect.Value{})
-	if v.IsValid() {
-		g.Value = *v
+	index, ok := vs.predefVarGlobal[v]
+	if !ok {
+		g := newGlobal(pkg, name, typ, reflect.Value{})
+		if v.IsValid() {
+			g.Value = *v
+		}
+		index = vs.addGlobal(g)
+		vs.predefVarGlobal[v] = index
 	}
 	if vs.predefVarRef[currFn] == nil {
 		vs.predefVarRef[currFn] = map[*reflect.Value]int16{}
 	}
-	index := vs.addGlobal(g)
 	vs.predefVarRef[currFn][v] = index
 	return index
 }
